@@ -45,6 +45,24 @@ Theorem C16_trot_structural : forall (T : Type) (O : ops T) (t : T) (v : V3 T),
 Proof. intros; destruct v as [[x y] z]; repeat split; reflexivity. Qed.
 Print Assumptions C16_trot_structural.
 
+(* unit='deg' (repaired by 61ca10f: getunit uses base.isscalar): the degree result is the radian result at k*angle.
+   Stated over an abstract ops record and proved by conversion: value AND structure are those of the radian form. *)
+Theorem C16_rot_deg : forall (T : Type) (O : ops T) (k t : T),
+  tr_rotx_deg O k t = tr_rotx O (mul O k t) /\ tr_roty_deg O k t = tr_roty O (mul O k t) /\
+  tr_rotz_deg O k t = tr_rotz O (mul O k t) /\
+  tr_trotx_deg O k t = tr_trotx O (mul O k t) /\ tr_troty_deg O k t = tr_troty O (mul O k t) /\
+  tr_trotz_deg O k t = tr_trotz O (mul O k t).
+Proof. intros; repeat split; reflexivity. Qed.
+Print Assumptions C16_rot_deg.
+
+Theorem C16_rot_deg_value : forall k t : R,
+  tr_rotx_deg Rops k t = rotx_ref Rops (k * t) /\ tr_roty_deg Rops k t = roty_ref Rops (k * t) /\
+  tr_rotz_deg Rops k t = rotz_ref Rops (k * t) /\
+  tr_trotx_deg Rops k t = r2t3 Rops (rotx_ref Rops (k * t)) /\ tr_troty_deg Rops k t = r2t3 Rops (roty_ref Rops (k * t)) /\
+  tr_trotz_deg Rops k t = r2t3 Rops (rotz_ref Rops (k * t)).
+Proof. intros; repeat split; gen_ring. Qed.
+Print Assumptions C16_rot_deg_value.
+
 (* ------------------------------------------------------------------ transl: three call forms, one meaning *)
 Theorem C16_transl_value : forall (x y z : R) (X : M44 R),
   tr_transl_xyz Rops x y z = transl_ref Rops x y z /\ tr_transl_list Rops (x,y,z) = transl_ref Rops x y z /\
@@ -65,6 +83,18 @@ Theorem C16_eul2r_value : forall v : V3 R,
   tr_eul2tr_list Rops v = r2t3 Rops (eul2r_ref Rops v) /\ tr_eul2tr_arr Rops v = r2t3 Rops (eul2r_ref Rops v).
 Proof. intros; repeat split; gen_ring. Qed.
 Print Assumptions C16_eul2r_value.
+
+(* the three-scalar call form (repaired by eb98c88: eul2r uses base.isscalar) means the same as the vector form *)
+Theorem C16_eul2r_scalars_value : forall a b c : R,
+  tr_eul2r_3 Rops a b c = eul2r_ref Rops (a,b,c) /\ tr_eul2r_3 Rops a b c = tr_eul2r_list Rops (a,b,c) /\
+  tr_eul2tr_3 Rops a b c = r2t3 Rops (eul2r_ref Rops (a,b,c)) /\ tr_eul2tr_3 Rops a b c = tr_eul2tr_list Rops (a,b,c).
+Proof. intros; repeat split; gen_ring. Qed.
+Print Assumptions C16_eul2r_scalars_value.
+
+Theorem C16_eul2r_scalars_structural : forall (T : Type) (O : ops T) (a b c : T),
+  matches O (hom44 pat_any33 t000) (fl44 (tr_eul2tr_3 O a b c)) /\ t2r3 (tr_eul2tr_3 O a b c) = tr_eul2r_3 O a b c.
+Proof. intros; repeat split; reflexivity. Qed.
+Print Assumptions C16_eul2r_scalars_structural.
 
 Theorem C16_eul2tr_structural : forall (T : Type) (O : ops T) (v : V3 T),
   matches O (hom44 pat_any33 t000) (fl44 (tr_eul2tr_list O v)) /\ matches O (hom44 pat_any33 t000) (fl44 (tr_eul2tr_arr O v)) /\
